@@ -33,12 +33,28 @@ import (
 // that submission fail.
 type hookBackend struct {
 	*backends.SimulatedBackend
-	mu     sync.Mutex
-	onSend func()
-	fail   bool
+	mu      sync.Mutex
+	onSend  func()
+	onNonce func() // called when a transaction is being prepared (its sender's next nonce is looked up)
+	fail    bool
 }
 
-func (h *hookBackend) SendTransaction(ctx context.Context, tx *types.Transaction) error {
+func (h *hookBackend) PendingNonceAt(ctx context.Context, account common.Address) (uint64, error) {
+	h.mu.Lock()
+	f := h.onNonce
+	h.mu.Unlock()
+	if f != nil {
+		f()
+	}
+	return h.SimulatedBackend.PendingNonceAt(ctx, account)
+}
+
+func (h *hookBackend) SendTransaction(ctx context.Context, tx *types.Transaction) (err error) {
+	defer func() { // the simulated chain panics where a node would answer with an error
+		if r := recover(); r != nil {
+			err = fmt.Errorf("transaction rejected: %v", r)
+		}
+	}()
 	h.mu.Lock()
 	f, fail := h.onSend, h.fail
 	h.mu.Unlock()
@@ -373,6 +389,125 @@ func contractFailedSettlement(drv int, rng *rand.Rand) (map[string]interface{}, 
 	return map[string]interface{}{"driver": driverNames[drv], "deposit": dep, "credit": cred, "fee": fee, "failed_submissions": errs, "then": fmt.Sprint(okErr), "received": received.String()}, mon
 }
 
+// contractRestartBeforeMining: a withdrawal is settled (transaction submitted, not yet mined); the
+// pool restarts (nothing cached); the wallet asks again. The contract's PENDING state already has
+// the deposit at 0: the second request must not be paid the deposit again.
+func contractRestartBeforeMining(drv int, rng *rand.Rand) (map[string]interface{}, []string) {
+	bg := context.Background()
+	c := newChainWorld(drv)
+	defer c.Close()
+	var mon []string
+	dep := int64(1000 + rng.Intn(100000))
+	cred := int64(1 + rng.Intn(100000))
+	other := bind.NewKeyedTransactor(keyFor("operator"))
+	if _, err := c.contract.AddBalance(c.tx(other, big.NewInt(10000000))); err != nil {
+		fatal("funding: %v", err)
+	}
+	c.deposit(dep)
+	wallet := walletOf("w1")
+	acct := store.Account(wallet)
+	c.st.AddAccountBalance(acct, big.NewInt(cred))
+	wAddr := common.HexToAddress(wallet)
+	ether := func() *big.Int { b, _ := c.sim.BalanceAt(bg, wAddr, nil); return b }
+	start := func() *payment.PaymentService {
+		cp, settle := c.payment(true)
+		return &payment.PaymentService{NonceStore: c.st.Store, AccountStore: c.st.Store, BalanceStore: cp, Settle: settle}
+	}
+	withdraw := func(pay *payment.PaymentService) error {
+		n := c.next()
+		sig, _ := request.Sign(keyFor("w1"), "pool_withdraw", wallet, n)
+		return pay.Withdraw(bg, sig, wallet, n)
+	}
+	e0 := ether()
+	first := withdraw(start())
+	restarts := 1 + rng.Intn(2)
+	var again []string
+	for k := 0; k < restarts; k++ {
+		again = append(again, fmt.Sprint(withdraw(start()))) // a fresh process: empty cache, same chain, same store
+	}
+	c.sim.Commit()
+	received := new(big.Int).Sub(ether(), e0)
+	want := big.NewInt(dep + cred)
+	on, _ := c.contract.Accounts(nil, wAddr)
+	if first != nil {
+		mon = append(mon, fmt.Sprintf("c07-contract-refused: withdrawal of deposit %d + credit %d refused: %v", dep, cred, first))
+	} else if received.Cmp(want) != 0 || on.Balance.Sign() != 0 {
+		mon = append(mon, fmt.Sprintf("c07-contract-paid-twice-across-restart: a withdrawal was settled (not yet mined), the pool restarted, the wallet asked again (%v): in all %s reached the wallet; deposit %d + credit %d = %s was owed, once", again, received, dep, cred, want))
+	}
+	return map[string]interface{}{"driver": driverNames[drv], "deposit": dep, "credit": cred, "first": fmt.Sprint(first), "after_restart": again, "received": received.String()}, mon
+}
+
+// contractTwoSpellings: one wallet, spelled in checksummed and in lower case (the signature
+// check accepts both, the contract knows one address), withdraws under both spellings at the same
+// time: the second request arrives while the first is submitting its settlement. Withdrawals are
+// serialised: the deposit is paid once.
+func contractTwoSpellings(drv int, rng *rand.Rand) (map[string]interface{}, []string) {
+	bg := context.Background()
+	c := newChainWorld(drv)
+	defer c.Close()
+	var mon []string
+	dep := int64(1000 + rng.Intn(100000))
+	other := bind.NewKeyedTransactor(keyFor("operator"))
+	if _, err := c.contract.AddBalance(c.tx(other, big.NewInt(10000000))); err != nil {
+		fatal("funding: %v", err)
+	}
+	c.deposit(dep)
+	cp, settle := c.payment(true)
+	pay := &payment.PaymentService{NonceStore: c.st.Store, AccountStore: c.st.Store, BalanceStore: cp, Settle: settle}
+	spell := []string{walletOf("w1"), strings.ToLower(walletOf("w1"))}
+	wAddr := common.HexToAddress(spell[0])
+	ether := func() *big.Int { b, _ := c.sim.BalanceAt(bg, wAddr, nil); return b }
+	e0 := ether()
+	inSend := make(chan struct{}, 4)
+	release := make(chan struct{})
+	first := true
+	c.hb.mu.Lock()
+	c.hb.onNonce = func() {
+		c.hb.mu.Lock()
+		mine := first
+		first = false
+		c.hb.mu.Unlock()
+		if mine { // the first settlement waits here: balance read, transaction not yet prepared
+			inSend <- struct{}{}
+			select {
+			case <-release:
+			case <-time.After(3 * time.Second):
+			}
+		}
+	}
+	c.hb.mu.Unlock()
+	errs := make([]error, 2)
+	var wg sync.WaitGroup
+	run := func(k int) {
+		defer wg.Done()
+		n := c.next()
+		sig, _ := request.Sign(keyFor("w1"), "pool_withdraw", spell[k], n)
+		errs[k] = pay.Withdraw(bg, sig, spell[k], n)
+	}
+	wg.Add(1)
+	go run(0)
+	overlapped := false
+	select {
+	case <-inSend:
+		overlapped = true
+		wg.Add(1)
+		go run(1)
+		time.Sleep(600 * time.Millisecond) // the second either waits its turn or goes all the way through meanwhile
+	case <-time.After(3 * time.Second):
+	}
+	close(release)
+	wg.Wait()
+	c.hb.mu.Lock()
+	c.hb.onNonce = nil
+	c.hb.mu.Unlock()
+	c.sim.Commit()
+	received := new(big.Int).Sub(ether(), e0)
+	if overlapped && received.Cmp(big.NewInt(dep)) > 0 {
+		mon = append(mon, fmt.Sprintf("c10-contract-two-spellings: wallet %s withdrew under two spellings at once (results %v): %s reached it for a deposit of %d: the two withdrawals were not serialised", spell[0], errs, received, dep))
+	}
+	return map[string]interface{}{"driver": driverNames[drv], "deposit": dep, "overlapped": overlapped, "results": fmt.Sprint(errs), "received": received.String()}, mon
+}
+
 // contractCase runs one of the scenarios and keeps the monitors of the property being checked.
 func contractCase(ctx *Ctx, i int, rng *rand.Rand, scenario string, prefixes ...string) {
 	drv := i % 2
@@ -385,6 +520,10 @@ func contractCase(ctx *Ctx, i int, rng *rand.Rand, scenario string, prefixes ...
 		desc, mon = contractLateDeposit(drv, rng)
 	case "failed-settlement":
 		desc, mon = contractFailedSettlement(drv, rng)
+	case "restart-before-mining":
+		desc, mon = contractRestartBeforeMining(drv, rng)
+	case "two-spellings":
+		desc, mon = contractTwoSpellings(drv, rng)
 	default:
 		desc, mon = contractSettleInFlight(drv, rng)
 	}
